@@ -602,3 +602,175 @@ pub fn active_state_name(state: &ActiveOrderState) -> &'static str {
         ActiveOrderState::CancelInFlight(_) => "CancelInFlight",
     }
 }
+
+// ------------------------------------------------------------------------------------------------
+// Scripted execution client (stands in for an exchange REST/WS client behind ExecutionManager)
+
+use barter_execution::{
+    UnindexedAccountEvent, UnindexedAccountSnapshot,
+    client::ExecutionClient,
+    error::{ApiError, UnindexedClientError, UnindexedOrderError},
+    order::{request::UnindexedOrderResponseCancel, state::Open},
+};
+use barter_instrument::{asset::{QuoteAsset, name::AssetNameExchange}, instrument::name::InstrumentNameExchange};
+
+#[derive(Debug, Clone, PartialEq, Eq)]
+pub struct ClientCall {
+    pub is_open: bool,
+    pub exchange: ExchangeId,
+    pub instrument: InstrumentNameExchange,
+    pub cid: ClientOrderId,
+    pub at: tokio::time::Instant,
+}
+
+#[derive(Debug, Clone, Copy, PartialEq, Eq)]
+pub enum ReplyKind {
+    /// open: accepted, partially filled (stays open); cancel: confirmed
+    Ok,
+    /// open: accepted and completely filled
+    OkFullyFilled,
+    /// rejected by the venue
+    Err,
+}
+
+#[derive(Debug, Clone, Copy, PartialEq, Eq)]
+pub enum Reply {
+    After(std::time::Duration, ReplyKind),
+    Never,
+}
+
+/// `ExecutionClient` whose every answer is decided by a script closure and whose every received
+/// request is recorded (exchange id, exchange instrument name, client order id, virtual instant).
+#[derive(Clone)]
+pub struct ScriptClient {
+    pub calls: Arc<Mutex<Vec<ClientCall>>>,
+    pub script: Arc<dyn Fn(&ClientCall) -> Reply + Send + Sync>,
+}
+
+impl std::fmt::Debug for ScriptClient {
+    fn fmt(&self, f: &mut std::fmt::Formatter<'_>) -> std::fmt::Result {
+        write!(f, "ScriptClient")
+    }
+}
+
+impl ScriptClient {
+    pub fn new(script: impl Fn(&ClientCall) -> Reply + Send + Sync + 'static) -> Self {
+        Self { calls: Default::default(), script: Arc::new(script) }
+    }
+
+    pub fn take_calls(&self) -> Vec<ClientCall> {
+        std::mem::take(&mut *self.calls.lock().unwrap())
+    }
+
+    async fn wait(&self, call: &ClientCall) -> ReplyKind {
+        self.calls.lock().unwrap().push(call.clone());
+        match (self.script)(call) {
+            Reply::After(delay, kind) => {
+                if !delay.is_zero() {
+                    tokio::time::sleep(delay).await;
+                }
+                kind
+            }
+            Reply::Never => std::future::pending().await,
+        }
+    }
+}
+
+impl ExecutionClient for ScriptClient {
+    const EXCHANGE: ExchangeId = ExchangeId::Mock;
+    type Config = ScriptClient;
+    type AccountStream = futures::stream::Pending<UnindexedAccountEvent>;
+
+    fn new(config: Self::Config) -> Self {
+        config
+    }
+
+    async fn account_snapshot(
+        &self,
+        _: &[AssetNameExchange],
+        _: &[InstrumentNameExchange],
+    ) -> Result<UnindexedAccountSnapshot, UnindexedClientError> {
+        Ok(UnindexedAccountSnapshot { exchange: ExchangeId::Mock, balances: vec![], instruments: vec![] })
+    }
+
+    async fn account_stream(
+        &self,
+        _: &[AssetNameExchange],
+        _: &[InstrumentNameExchange],
+    ) -> Result<Self::AccountStream, UnindexedClientError> {
+        Ok(futures::stream::pending())
+    }
+
+    async fn cancel_order(
+        &self,
+        request: OrderRequestCancel<ExchangeId, &InstrumentNameExchange>,
+    ) -> UnindexedOrderResponseCancel {
+        let call = ClientCall {
+            is_open: false,
+            exchange: request.key.exchange,
+            instrument: request.key.instrument.clone(),
+            cid: request.key.cid.clone(),
+            at: tokio::time::Instant::now(),
+        };
+        let key = OrderKey {
+            exchange: request.key.exchange,
+            instrument: request.key.instrument.clone(),
+            strategy: request.key.strategy.clone(),
+            cid: request.key.cid.clone(),
+        };
+        let kind = self.wait(&call).await;
+        UnindexedOrderResponseCancel {
+            key,
+            state: match kind {
+                ReplyKind::Ok | ReplyKind::OkFullyFilled => Ok(Cancelled { id: OrderId::new(format!("x-{}", call.cid.0)), time_exchange: t(1) }),
+                ReplyKind::Err => Err(UnindexedOrderError::Rejected(ApiError::OrderAlreadyCancelled)),
+            },
+        }
+    }
+
+    async fn open_order(
+        &self,
+        request: OrderRequestOpen<ExchangeId, &InstrumentNameExchange>,
+    ) -> Order<ExchangeId, InstrumentNameExchange, Result<Open, UnindexedOrderError>> {
+        let call = ClientCall {
+            is_open: true,
+            exchange: request.key.exchange,
+            instrument: request.key.instrument.clone(),
+            cid: request.key.cid.clone(),
+            at: tokio::time::Instant::now(),
+        };
+        let key = OrderKey {
+            exchange: request.key.exchange,
+            instrument: request.key.instrument.clone(),
+            strategy: request.key.strategy.clone(),
+            cid: request.key.cid.clone(),
+        };
+        let state = request.state.clone();
+        let kind = self.wait(&call).await;
+        Order {
+            key,
+            side: state.side,
+            price: state.price,
+            quantity: state.quantity,
+            kind: state.kind,
+            time_in_force: state.time_in_force,
+            state: match kind {
+                ReplyKind::Ok => Ok(Open { id: OrderId::new(format!("x-{}", call.cid.0)), time_exchange: t(1), filled_quantity: Decimal::ZERO }),
+                ReplyKind::OkFullyFilled => Ok(Open { id: OrderId::new(format!("x-{}", call.cid.0)), time_exchange: t(1), filled_quantity: state.quantity }),
+                ReplyKind::Err => Err(UnindexedOrderError::Rejected(ApiError::OrderRejected("scripted".into()))),
+            },
+        }
+    }
+
+    async fn fetch_balances(&self) -> Result<Vec<AssetBalance<AssetNameExchange>>, UnindexedClientError> {
+        Ok(vec![])
+    }
+
+    async fn fetch_open_orders(&self) -> Result<Vec<Order<ExchangeId, InstrumentNameExchange, Open>>, UnindexedClientError> {
+        Ok(vec![])
+    }
+
+    async fn fetch_trades(&self, _: DateTime<Utc>) -> Result<Vec<Trade<QuoteAsset, InstrumentNameExchange>>, UnindexedClientError> {
+        Ok(vec![])
+    }
+}
